@@ -127,8 +127,12 @@ def priors_for(k, rec, idx, v1=False):
 
 def probes_for(k, hi, tag):
     ops = []
-    for slot in range(hi, -1, -1):
+    # lowest slot first: every probe at or below the floor meets the record as the import (or the prior history) left it - a probe
+    # that is signed raises the floor and would hide what the ones below it would have met; then the same slots downwards, other block
+    for slot in range(0, hi + 1):
         ops.append(dict(id="%sp%d" % (tag, slot), kind="prop", ents=[dict(k=k, slot=slot, root="P")]))
+    for slot in range(hi, -1, -1):
+        ops.append(dict(id="%sr%d" % (tag, slot), kind="prop", ents=[dict(k=k, slot=slot, root="Q")]))
     n = 0
     for t in range(0, hi + 1):
         for s in range(0, hi + 1):
